@@ -394,11 +394,15 @@ class Check(object):
 def load_known(prop):
     """KNOWN_FINDINGS.txt: `known: property=Cxx sig=<sig> id=<id> :: text` / `fixed: property=Cxx <commit> <text>`"""
     out = []
-    p = os.path.join(VERIF, 'KNOWN_FINDINGS.txt')
-    if not os.path.exists(p):
-        return out
-    with open(p, encoding='utf-8') as f:
-        for line in f:
+    import glob
+    files = [os.path.join(VERIF, 'KNOWN_FINDINGS.txt')] + sorted(glob.glob(os.path.join(VERIF, 'known-findings', '*.txt')))
+    lines = []
+    for p in files:
+        if os.path.exists(p):
+            with open(p, encoding='utf-8') as f:
+                lines.extend(f.readlines())
+    if True:
+        for line in lines:
             line = line.strip()
             if not line.startswith('known:'):
                 continue
